@@ -96,6 +96,8 @@ THEOREMS = [
     "OllamaVerif.C13.pathJoin_anyroot",
     "OllamaVerif.C13.manifest_path_confined_anyroot",
     "OllamaVerif.C13.blob_path_confined_anyroot",
+    "OllamaVerif.C13.getBlobsPath_empty",
+    "OllamaVerif.C13.blobs_mkdir_confined",
     "OllamaVerif.Tie.C13.first_sets_match",
     "OllamaVerif.Tie.C13.rest_sets_match",
     "OllamaVerif.Tie.C13.length_limits_match",
@@ -222,6 +224,41 @@ def tie_witnesses(ctx):
     return path
 
 
+# Branches of the model the theorems talk about, each counted by the driver that exercised it on the REAL code (the
+# counters are incremented from the real functions' results, and L1 is exact, so a non-zero counter = that branch of
+# the model was compared with the code in this run).  A run in which one of them is zero fails closed.
+REQUIRED_COUNTERS = [
+    # types/model: accept / reject, Filepath defined, relative paths, part rule, the third printer's two outcomes
+    "name_accepted", "name_rejected", "relpath_accepted", "relpath_rejected", "part_accepted", "bare_valid", "model_valid",
+    "display_roundtrip_exact", "display_roundtrip_case_only", "legacy_case_twin_distinct_path",
+    # names: both directions of disagreement between the packages' acceptance are seen (valid-but-unqualified forms)
+    "accept_model_only", "accept_names_only", "merged_fq", "merged_rejected", "maxnamelength_probe",
+    # legacy server: ParseModelPath / GetManifestPath / GetBlobsPath (three outcomes) / odd roots / enumeration / copy
+    "mp_accepted", "mp_rejected", "mp_and_model_accept", "mp_accepts_model_rejects", "mp_odd_root_accepted",
+    "blobs_accepted", "blobs_rejected", "blobs_empty_digest", "blobs_odd_root",
+    "enum_loaded", "enum_skipped_invalid", "copy_done", "copy_refused_invalid",
+    # digests, new cache: nameToPath / manifestPath (existing link vs would-be path) / Resolve's three targets / Links
+    "digest_accepted", "digest_rejected", "manifest_accepted", "manifest_rejected", "reparse_checked",
+    "fold_pairs_existing", "links_non_ascii", "resolve_digest", "resolve_manifest", "resolve_invalid",
+    "p2n_cases", "links_names_valid",
+    # histories: every operation kind, twins on disk
+    "hist_op_R", "hist_op_L", "hist_op_U", "hist_op_W", "hist_op_X", "hist_twins_seen",
+    # registry client: every error class and the digest-only form
+    "ext_accepted", "ext_digest_only", "ext_rejected_scheme", "ext_rejected_digest", "ext_rejected_name",
+    # directed families
+    "fold_family", "fold_direct", "utf8_names", "utf8_sample_2byte", "utf8_sample_3byte", "utf8_sample_4byte",
+]
+
+
+def coverage_required(ctx):
+    missing = [c for c in REQUIRED_COUNTERS if not ctx.stats.get(c)]
+    ctx.coverage["model_branches_required"] = len(REQUIRED_COUNTERS)
+    ctx.coverage["model_branches_missing"] = missing
+    if missing:
+        ctx.violation("correspondence-coverage", "", "branches of the model never exercised on the real code in this run: "
+                      + ", ".join(missing), no_input=True)
+
+
 def run(ctx):
     regenerate(ctx)
     ctx.lean_check(MODULES, THEOREMS)
@@ -260,6 +297,8 @@ def run(ctx):
         ctx.read_stats(outdir)
         ctx.l1(outdir, label=label)
         ctx.classify(ctx.l2(outdir))
+    if not ctx.replay and not only:
+        coverage_required(ctx)
     if ctx.thorough:
         ctx.leanchecker(MODULES)
     ctx.assumptions += [
